@@ -266,6 +266,260 @@ def place(t, ctx, i, ht, keys):
     inp.update_scripts(hash_type=1)
 
 
+# ---------------------------------------------------------------- one attribute written by hand
+# every attribute the three classes have in the tree this adapter was written for (frozen; AX reports anything else)
+KNOWN_ATTRS = {
+    't': {'block_hash', 'block_height', 'change', 'coinbase', 'confirmations', 'date', 'fee', 'fee_per_kb', 'flag', 'index',
+          'input_total', 'inputs', 'locktime', 'network', 'output_total', 'outputs', 'rawtx', 'replace_by_fee', 'size',
+          'status', 'txhash', 'txid', 'verified', 'version', 'version_int', 'vsize', 'witness_type'},
+    'i': {'address', 'address_obj', 'compressed', 'double_spend', 'encoding', 'hash_type', 'index_n', 'key_path', 'keys',
+          'locking_script', 'locktime_cltv', 'locktime_csv', 'network', 'output_n', 'output_n_int', 'prev_txid',
+          'public_hash', 'redeemscript', 'script', 'script_type', 'sequence', 'signatures', 'sigs_required', 'sort',
+          'strict', 'unlocking_script', 'valid', 'value', 'witness_type', 'witnesses'},
+    'o': {'_address', '_address_obj', 'change', 'compressed', 'encoding', 'lock_script', 'network', 'output_n',
+          'public_hash', 'public_key', 'script', 'script_type', 'spending_index_n', 'spending_txid', 'spent', 'value',
+          'versionbyte', 'witness_type', 'witver'},
+}
+
+
+def target(t, obj):
+    return t if obj == 't' else t.inputs[int(obj[1:])] if obj[0] == 'i' else t.outputs[int(obj[1:])]
+
+
+def write_attr(t, ctx, obj, attr, variant):
+    """assign ONE attribute, nothing else (no update_scripts, no second copy)"""
+    o = target(t, obj)
+    old = getattr(o, attr)
+    if variant == 'auto':                    # by the type the attribute has now
+        vs = variants_for(old)
+        variant = vs[0] if vs else 'str' if isinstance(old, str) else 'keep'
+    kind, _, arg = variant.partition(':')
+    if kind == 'keep':
+        return
+    if kind == 'str':
+        new = old + 'x'
+    elif kind == 'flip':
+        new = (old[:-1] + bytes([old[-1] ^ 1])) if old else b'\x51'
+    elif kind == 'empty':
+        new = b''
+    elif kind == 'hex':
+        new = bytes.fromhex(arg)
+    elif kind == 'add':
+        new = old + int(arg)
+    elif kind == 'set':
+        new = arg if isinstance(old, str) else bool(int(arg)) if isinstance(old, bool) else int(arg)
+    elif kind == 'sel':
+        new = [old[int(p_)] for p_ in arg.split('.')] if arg != '-' else []
+    elif kind == 'none':
+        new = None
+    else:
+        raise ValueError(variant)
+    setattr(o, attr, new)
+    if obj[0] == 'i' and attr == 'value':
+        ctx.values[int(obj[1:])] = new       # no serialization carries the amount: the verifier is told what the object holds
+
+
+def broadcast_verdict(t, ctx):
+    """consensus-style verdict on the bytes raw() returns NOW (own reader, own digests, own matching; harness/props/c01.py),
+    against the outputs being spent as the scenario describes them"""
+    try:
+        raw = t.raw()
+    except Exception as e:
+        return 'E'
+    try:
+        tx, rt = spec_tx(raw, ctx)
+        if len(rt['ins']) != len(ctx.specs) or not rt['outs']:
+            return 'F'
+        for i, ri in enumerate(rt['ins']):
+            if SPEC.verify_input(tx['ins'][i], ri, i, lambda p_, ht: SPEC.consensus_sighash(tx, p_, ht)[1]) is not None:
+                return 'F'
+    except Exception:
+        return 'F'
+    return 'T'
+
+
+def copy_ctx(ctx):
+    c = Ctx(ctx.specs)
+    c.values = list(ctx.values)
+    return c
+
+
+def probe(t, ctx, obj, attr, variant):
+    t2, ctx2 = deepcopy(t), copy_ctx(ctx)
+    write_attr(t2, ctx2, obj, attr, variant)
+    try:
+        lib = 'T' if t2.verify() else 'F'
+    except Exception as e:
+        lib = 'E:' + type(e).__name__
+    flags = ''.join('T' if i.valid is True else 'F' if i.valid is False else 'N' for i in t2.inputs)
+    return 'B%s/%s/%s' % (lib, flags, broadcast_verdict(t2, ctx2))
+
+
+def variants_for(v):
+    if isinstance(v, bool):
+        return ['set:%d' % (not v)]
+    if isinstance(v, int):
+        return ['add:1']
+    if isinstance(v, bytes):
+        return ['flip']
+    if isinstance(v, list):
+        return ['sel:-'] if v else []
+    if v is None:
+        return ['set:1']
+    if isinstance(v, str):
+        return []
+    return ['none']
+
+
+def unknown_attrs(t, ctx):
+    out = []
+    objs = [('t', t)] + [('i%d' % j, x) for j, x in enumerate(t.inputs)] + [('o%d' % j, x) for j, x in enumerate(t.outputs)]
+    for obj, o in objs:
+        for attr in sorted(vars(o)):
+            if attr in KNOWN_ATTRS[obj[0]]:
+                continue
+            vs = variants_for(getattr(o, attr))
+            if not vs:
+                out.append('%s.%s' % (obj, attr))
+            for variant in vs:
+                try:
+                    r = probe(t, ctx, obj, attr, variant)
+                except Exception as e:
+                    r = 'BE:' + type(e).__name__
+                out.append('%s.%s.%s=%s' % (obj, attr, variant, r.replace('/', '|')))
+    return 'X' + (','.join(out) or '-')
+
+
+# ---------------------------------------------------------------- thresholds on the parse path
+B58 = '123456789ABCDEFGHJKLMNPQRSTUVWXYZabcdefghijkmnopqrstuvwxyz'
+
+
+def p2pkh_script(addr):
+    n = 0
+    for ch in addr:
+        n = n * 58 + B58.index(ch)
+    b = n.to_bytes(25, 'big')
+    return b'\x76\xa9\x14' + b[1:21] + b'\x88\xac'
+
+
+def num_item(n):
+    """a number as a script item (consensus, minimal push): OP_1..OP_16, above that one byte of data"""
+    return bytes([0x50 + n]) if 1 <= n <= 16 else bytes([1, n])
+
+
+def ms_script(m, keys):
+    return num_item(m) + b''.join(SPEC.push(k) for k in keys) + num_item(len(keys)) + b'\xae'
+
+
+_own_sigs = {}
+
+
+def own_sig(digest, i):
+    k = (digest, i)
+    if k not in _own_sigs:
+        r, s_ = _fe_ecdsa.sign(digest, secret(i), curve=CURVE, prehashed=True)
+        if s_ > N // 2:
+            s_ = N - s_
+        _own_sigs[k] = (r, s_)
+    return _own_sigs[k]
+
+
+def thr_digest(kind, tx, code, value, ht):
+    if kind == 'sh':
+        return SPEC.legacy_sighash(tx, 0, code, ht)[1]
+    return SPEC.bip143_sighash(tx, 0, code, value, ht)[1]
+
+
+def thr(src, kind, m, n, sel):
+    """one m-of-n input (keys 0c .. (n-1)c) whose SERIALIZED signature list is `sel`, parsed and verified.
+    src own: the bytes are written here from scratch (consensus number encoding, signatures made here);
+    src lib: built, signed by all n keys and serialized by the library, then the signature list is replaced in the
+    bytes (own reader / writer) by the selection of the library's own signatures"""
+    FOREIGN = 30
+    for i in range(n):
+        secret(i)
+    secret(FOREIGN)
+    keys = [bytes.fromhex(_pubhex[(i, 'c')]) for i in range(n)]
+    code = ms_script(m, keys)                     # what the output being spent commits to
+    value = 100000
+    toks = sel.split('.') if sel != '-' else []
+    if src == 'own':
+        outs = [(60000, p2pkh_script(OUT_ADDR[0])), (30000, p2pkh_script(OUT_ADDR[1]))]
+        fields = dict(ver=1, lock=0, outs=outs, ins=[dict(prev=hashlib.sha256(b'prev-0').digest()[::-1], vout=0, seq=0xffffffff)])
+        d1 = thr_digest(kind, fields, code, value, 1)
+        sigs = []
+        for tk in toks:
+            if tk == 'f':
+                r, s_ = own_sig(d1, FOREIGN)
+            elif tk[0] == 'x':
+                r, s_ = own_sig(d1, int(tk[1:]))
+                s_ += 1
+            else:
+                r, s_ = own_sig(d1, int(tk))
+            sigs.append(der(r, s_) + b'\x01')
+        x = dict(fields['ins'][0], script=b'', wit=[])
+        if kind == 'sh':
+            x['script'] = b'\x00' + b''.join(SPEC.push(sg) for sg in sigs) + SPEC.push(code)
+        else:
+            x['wit'] = [b''] + sigs + [code]
+            if kind == 'shwsh':
+                x['script'] = SPEC.push(b'\x00\x20' + hashlib.sha256(code).digest())
+        raw = ser_raw(dict(ver=1, lock=0, ins=[x], outs=outs), kind != 'sh')
+    else:
+        t, ctx = build('%s/%d/%s' % (kind, m, ','.join('%dc' % i for i in range(n))))
+        t.sign([priv('%dc' % i) for i in range(n)])
+        made = [sg.as_der_encoded() for sg in t.inputs[0].signatures]
+        if len(made) != n:
+            return 'LIBSIGS %d' % len(made)
+        h = t.signature_hash(0, 1, t.inputs[0].witness_type)
+        sigs = []
+        for tk in toks:
+            if tk == 'f':
+                sigs.append(sign(h, priv('%dc' % FOREIGN)).as_der_encoded())
+            elif tk[0] == 'x':
+                sigs.append(variant(t.inputs[0].signatures[int(tk[1:])], 4).as_der_encoded())
+            else:
+                sigs.append(made[int(tk)])
+        raw0 = t.raw()
+        rt = SPEC.read_raw(raw0)
+        segwit = raw0[4:6] == b'\x00\x01'
+        if ser_raw(rt, segwit) != raw0:
+            return 'OWNSER'
+        ri = rt['ins'][0]
+        if kind == 'sh':
+            items = SPEC.pushes(ri['script'])
+            ri['script'] = b'\x00' + b''.join(SPEC.push(sg) for sg in sigs) + SPEC.push(items[-1])
+        else:
+            ri['wit'] = [b''] + sigs + [ri['wit'][-1]]
+        raw = ser_raw(rt, segwit)
+    # the oracle matrix, from the bytes
+    try:
+        rt2 = SPEC.read_raw(raw)
+        f2 = dict(ver=rt2['ver'], lock=rt2['lock'], outs=rt2['outs'],
+                  ins=[dict(prev=y['prev'], vout=y['vout'], seq=y['seq']) for y in rt2['ins']])
+        rows, dig = [], {}
+        for sb in serialized_sigs(KIND[kind], rt2['ins'][0]):
+            r, s_, ht = SPEC.der_sig(sb)
+            if ht not in dig:
+                dig[ht] = thr_digest(kind, f2, code, value, ht)
+            rows.append(''.join('1' if ec_valid(r, s_, dig[ht], POINT_OF_PUB[k]) else '0' for k in keys))
+        mat = ','.join(rows) if rows else '-'
+    except Exception:
+        mat = '?'
+    try:
+        t2 = Transaction.parse(raw)
+    except Exception as e:
+        return 'PE:' + type(e).__name__
+    t2.inputs[0].value = value
+    try:
+        v = t2.verify()
+    except Exception as e:
+        return 'VE:' + type(e).__name__
+    a = t2.inputs[0]
+    return 'V%s/%s/%s/%d' % ('T' if v else 'F', 'T' if a.valid is True else 'F' if a.valid is False else 'N', mat,
+                             a.sigs_required)
+
+
 def build(ins):
     specs = []
     for s in ins.split(';'):
@@ -408,6 +662,12 @@ def scenario(ins, ops):
             place(t, ctx, int(f[1]), int(f[2]), f[3].split(',') if f[3] != '-' else [])
         elif f[0] == 'T':
             tamper(t, ctx, f[1], f[2])
+        elif f[0] == 'A':
+            out.append(probe(t, ctx, f[1], f[2], f[3]))
+        elif f[0] == 'AW':
+            write_attr(t, ctx, f[1], f[2], f[3])
+        elif f[0] == 'AX':
+            out.append(unknown_attrs(t, ctx))
         elif f[0] == 'X':
             edit(t, int(f[1]), f[2], int(f[3]), f[4] if len(f) > 4 else None)
         else:
@@ -419,6 +679,11 @@ def dispatch(t):
     if t[0] == 'scn':
         try:
             return scenario(t[1], t[2])
+        except Exception as e:
+            return 'CRASH %s %s' % (type(e).__name__, str(e)[:80].replace('\n', ' '))
+    if t[0] == 'thr':
+        try:
+            return thr(t[1], t[2], int(t[3]), int(t[4]), t[5])
         except Exception as e:
             return 'CRASH %s %s' % (type(e).__name__, str(e)[:80].replace('\n', ' '))
     return 'BADREQ'
